@@ -70,7 +70,8 @@ class ExprMixin(object):
             hint = a.hint if (a.hint is b.hint or repr(a.hint) == repr(b.hint)) else self.join_hints(a.hint, b.hint)
             return V(Ite(c, a.t, b.t), hint)
         if isinstance(a, PyTuple) and isinstance(b, PyTuple) and len(a.items) == len(b.items):
-            return PyTuple([self.merge_values(c, x, y) for x, y in zip(a.items, b.items)])
+            return PyTuple([self.merge_values(c, x, y) for x, y in zip(a.items, b.items)],
+                           fields=a.fields if a.fields == b.fields else None)
         if isinstance(a, GList) and isinstance(b, GList):
             return self.merge_glists(c, a, b)
         if isinstance(a, PyObj) and isinstance(b, PyObj) and a.o is b.o:
@@ -684,6 +685,11 @@ class ExprMixin(object):
         return self.getattr(st, base, e.attr, getattr(e, 'lineno', 0))
 
     def getattr(self, st, base, name, line=0):
+        if isinstance(base, PyTuple) and base.fields and name in base.fields:
+            return base.items[list(base.fields).index(name)]      # namedtuple field
+        if isinstance(base, V) and base.hint is not None and base.hint.kind == 'tuple' and getattr(base.hint, 'fields', None) \
+                and name in base.hint.fields:
+            return self.getitem(st, base, self.lift(list(base.hint.fields).index(name)), line)
         if isinstance(base, V) and name == '__class__':
             return PyObj(('classof', base))
         if isinstance(base, PyObj) and isinstance(base.o, tuple) and base.o and base.o[0] == 'classof' and name == '__name__':
